@@ -1736,6 +1736,14 @@ def simp(v):
         elif f_[0] in ("attr", "global") and v[1][1] == "map" and f_ != ("const", None):
             bv = ("bv", "_m", next(_fresh))
             body = simp(("meth", f_[1], f_[2], (bv,), ())) if f_[0] == "attr" else simp(("call", f_, (bv,), ()))
+        elif v[1][1] == "map" and ((f_[0] == "call" and f_[1] in (("global", "attrgetter"), ("global", "itemgetter")) and len(f_[2]) == 1 and not f_[3]) or
+                                   (f_[0] == "meth" and f_[1] == ("global", "operator") and f_[2] in ("attrgetter", "itemgetter") and len(f_[3]) == 1 and not f_[4])):
+            # operator.attrgetter("name") / itemgetter(k) applied to x is x.name / x[k]
+            which = f_[1][1] if f_[0] == "call" else f_[2]
+            arg = (f_[2] if f_[0] == "call" else f_[3])[0]
+            if arg[0] == "const" and (which == "itemgetter" or (isinstance(arg[1], str) and arg[1].isidentifier())):
+                bv = ("bv", "_m", next(_fresh))
+                body = ("attr", bv, arg[1]) if which == "attrgetter" else simp(("sub", bv, arg))
         if bv is not None:
             if v[1][1] == "map":
                 return simp(("comp", "gen", body, ((bv, seq_, ()),)))
